@@ -30,6 +30,8 @@ import KinModel.NoPanic.Server
 import KinModel.NoPanic.Router
 import KinModel.NoPanic.Recursion
 import KinModel.NoPanic.Traffic
+import KinModel.NoPanic.PatternCache
+import KinModel.Gen.C10CacheSites
 
 namespace KinModel.Props.C10
 open KinModel.NoPanic KinModel.NoPanic.Traffic KinModel.NoPanic.Router
@@ -587,5 +589,57 @@ example : validateResponse opEx ⟨false, some 0, fun _ => ⟨true, false, false
     ⟨false, some 0, ⟨true, false, false, false, true⟩⟩⟩ = .ok := by decide
 example : ErrWF ⟨true, .schema [⟨true, false⟩, ⟨false, true⟩]⟩ = true := by decide
 theorem convert_enum_without_schema_panics : (convertErrors ⟨true, .schema [⟨true, true⟩]⟩).bad = true := by decide
+
+/-! ## state kept between calls: the process-wide cache of compiled patterns (table C10CacheSites)
+
+A validation can leave a value in `openapi3.compiledPatterns` that a later validation of the same pattern text uses
+without compiling again; "no panic" is therefore a statement about histories of calls in one process. -/
+
+/-- table obligation: every storing call on a process-wide sync.Map of openapi3 / openapi3filter stands behind
+    `if err != nil { …; return }` (or inside `if err == nil`), every use of such a variable was read, and the cache's
+    Load and storing call were found. A store that becomes reachable after a failed compile breaks this. -/
+theorem cache_stores_err_guarded : PatternCache.storesGuarded Gen.c10CacheSites = true := by decide
+
+/-- every history of document validations and string validations in one process — any pattern texts, each call with
+    its own compiler and its own answer — from any cache whose entries are usable matchers: no call panics. The
+    configuration of the model is the one computed from the current source. -/
+theorem pattern_cache_history_no_panic (ops : List PatternCache.Op) (c : PatternCache.Cache) (hc : PatternCache.Inv c) :
+    PatternCache.Out.panic ∉ PatternCache.run (PatternCache.cfgOf Gen.c10CacheSites) c ops :=
+  PatternCache.run_no_panic _ (PatternCache.cfgOf_guarded _ cache_stores_err_guarded) ops c hc
+
+/-- … in particular from process start (empty cache) -/
+theorem pattern_cache_history_no_panic_from_start (ops : List PatternCache.Op) :
+    PatternCache.Out.panic ∉ PatternCache.run (PatternCache.cfgOf Gen.c10CacheSites) [] ops :=
+  pattern_cache_history_no_panic ops [] (fun _ h => absurd h (by simp))
+
+/-- the history dimension on the traffic model: any sequence of exchanges against one valid document in one process,
+    each with the pattern-cache operations its validations perform (any texts, any compilers): every request and
+    response validation returns and no cache operation panics. The traffic model keeps no state of its own (its
+    functions take the operation and the traffic only), the cache is the state; outside F-C10-1 as above. -/
+theorem valid_doc_history_no_panic_partial (op : OpM) (hv : DocValid op = true) (hx : ExclOp op = false)
+    (h : List (ReqTraffic × RespTraffic × List PatternCache.Op)) :
+    (∀ e ∈ h, (validateRequest op e.1).bad = false ∧ (validateResponse op e.2.1).bad = false) ∧
+    PatternCache.Out.panic ∉ PatternCache.run (PatternCache.cfgOf Gen.c10CacheSites) [] (h.map (·.2.2)).flatten :=
+  ⟨fun e _ => ⟨validateRequest_no_panic_partial op e.1 hv hx, validateResponse_no_panic_partial op e.2.1 hv hx⟩,
+   pattern_cache_history_no_panic_from_start _⟩
+
+/-- witness that the table obligation is what the theorem needs: with an effective store that is also reached after a
+    failed compile, the second validation of one uncompilable pattern panics (the first reports the compile error) -/
+theorem store_on_error_poisons_cache :
+    PatternCache.run ⟨true, true⟩ [] [.visit 0 false, .visit 0 false] = [.compileErr, .panic] := by decide
+
+/-- witness that the invariant is needed: a cached nil matcher panics on the next use, whatever the configuration -/
+theorem poisoned_cache_panics :
+    PatternCache.run ⟨false, false⟩ [(0, .nilMatcher)] [.visit 0 true] = [.panic] := by decide
+
+/-- non-vacuity: a history with compilable and uncompilable patterns under the configuration of the current source -/
+example : PatternCache.run (PatternCache.cfgOf Gen.c10CacheSites) []
+    [.gate 0 true, .visit 0 true, .visit 1 false, .visit 1 false, .gate 1 false, .visit 1 true] =
+    [.normal, .normal, .compileErr, .compileErr, .compileErr, .normal] := by decide
+
+/-- non-vacuity for a cache that really stores (a repaired `Store` behind the error return): the second validation
+    uses the cached matcher — whatever its own compiler would have said — and nothing panics -/
+example : PatternCache.run ⟨false, true⟩ [] [.visit 0 true, .visit 0 false, .visit 1 false, .visit 1 false] =
+    [.normal, .normal, .compileErr, .compileErr] := by decide
 
 end KinModel.Props.C10
